@@ -29,9 +29,10 @@ for _x in EXITS:
 QUICK += [("S1r", cfg("raise"), 2, "EDIT"), ("S0", cfg("refusal"), 3, "FULL"), ("S2", cfg("fetch_r", policy="drop"), 1, "FULL")]
 THOROUGH = []
 for _x in EXITS:
-    for _o, _p in (("asc", "hold"), ("desc", "drop")):
-        THOROUGH += [("S2r", cfg(_x, _o, _p), 2, "EDIT"), ("S1", cfg(_x, _o, _p), 2, "FULL"), ("S1r", cfg(_x, _o, _p), 2, "FULL"),
-                     ("S0", cfg(_x, _o, _p), 3, "FULL"), ("S4r", cfg(_x, _o, _p), 2, "DELCORE")]
+    THOROUGH += [("S2r", cfg(_x), 2, "EDIT"), ("S1", cfg(_x, "desc"), 2, "FULL"), ("S1r", cfg(_x, "asc", "drop"), 1, "FULL"),
+                 ("S4r", cfg(_x, "desc", "hold"), 1, "DELCORE")]
+THOROUGH += [("S0", cfg("raise"), 3, "FULL"), ("S0", cfg("refusal", "desc"), 3, "FULL"), ("S2", cfg("fetch_r+_from_r_raise"), 2, "STRUCT"),
+             ("S4", cfg("normal"), 2, "DELCORE")]
 
 P = TreeProp(
     "C11",
